@@ -8,6 +8,20 @@ ALL = [f'C{i:02d}' for i in range(1, 21)]
 
 # property -> (level text, level note, technique, design section)
 CHECKS = {
+    'C04': (
+        'Lean 4 theorems over any commutative ring, any register shape and any axis position: the in-place slicing kernels of '
+        'XPowGate / YPowGate / ZPowGate / HPowGate._apply_unitary_ (two-slice updates incl. the sequence one-=zero; one*=-0.5; zero-=one; '
+        '*=sqrt2) equal the action of the gate matrix on that axis (C04_kernel_X/Y/Z/H via sliceKernel2_eq); applying the sub-operation '
+        'on the slices selected by the control values equals the controlled block matrix (C04_controlled_slice). T2: for generated '
+        'gates and wrapper compositions (tags, with_qubits, double inverse, CircuitOperation, ParallelGate, qutrit gates) the reported '
+        'matrix, apply_unitary on permuted / non-adjacent axes of 1..6-axis tensors with spectator axes of dimension 2/3/5 (operation- and '
+        'gate-level), act_on of the state-vector simulation state, decompose_once / decompose (product taken by the Lean interpreter), '
+        'kraus / mixture / superoperator and the has_* predicates are compared through the Lean action of the matrix.',
+        'Trusted: Lean kernel; harness + driver; the matrix of each operation comes from cirq.unitary (C03); kernels other than X/Y/Z/H, '
+        'density-matrix / Clifford act_on and ancilla decompositions are covered by T2 only.',
+        'Lean 4 proof (kernel = matrix action, controlled slicing) + differential correspondence across protocols',
+        'DESIGN.md §3 C04',
+    ),
     'C08': (
         'Lean 4 theorems over any commutative ring: for orthogonal idempotent eigen-projectors (kernel-decided for the tables extracted from '
         'the running code, Obligations/C03) the matrices of G**t1 and G**t2 multiply to that of G**(t1+t2) and G**t G**-t is the identity, '
